@@ -22,17 +22,20 @@ rule = ("scripts = 'p fmt <description> <sect flags> <opt flags>' then groups of
         "with an anonymous section / empty-named element / named section / option inside; stream 3 = grammar-generated files mutated by delete/duplicate/flip x name flag sets x handler "
         "refusals x pre-populated target trees x read errors, each file also through mpt_node_parse (stdio stream, name restriction texts, with and without logger) and default-format files through mpt_parse_folder; non-trivial = a script in which the real code "
         "delivered at least one element to the handler or built a node (event list / tree not empty), counted "
-        "per distinct script; behind every parse (every fourth one in stream 1) the op 'p stat' / 'x stat' compares "
+        "per distinct script; behind every parse (every sixth one in stream 1) the op 'p stat' / 'x stat' compares "
         "return code, line counter, number of getc calls, consumed bytes and the representation (inline / buffer) of "
         "the stored values with the model in the observable column (a difference fails the check); 'p config fail=k' "
         "reports whether the handler refused: 'ok' together with 'refused=yes' is not an allowed outcome; 'p config keep' "
-        "(behind every plain 'p config', every eighth in stream 1) runs the same parse with a handler that keeps a SHARED "
+        "(behind every plain 'p config', every twelfth in stream 1) runs the same parse with a handler that keeps a SHARED "
         "reference (struct copy + addref) to the path buffer of every event and verifies and releases them afterwards; "
         "'p node' into an empty target must deliver exactly the tree the reported events describe (Spec/EventTree.lean); "
         "stream 4 (oom) = 44 inputs (values of 1..700 bytes, thorough up to 65536, long names, nesting) x allocation "
         "request k = 1..36 (thorough 80) refused: a failure has to leave the scratch target empty and nothing allocated; "
         "stream 5 = 400000 nested sections (text built by the driver; thorough 1000000); the C++ part also removes the file "
-        "behind the parser ('x unlink')")
+        "behind the parser ('x unlink'); stream 6 = every string of length <= 4 (thorough 5) over section start, assign "
+        "character, 'a', blank, line feed and NUL that contains a NUL x the 10 formats (without 'p stat', every fourth script "
+        "again with it); in streams 1, 6 and the random formats the tree ('p node') is asked for before the event list; "
+        "'p config keep' also demands the same event list as the plain 'p config' of the same input (kept=differs otherwise)")
 assumptions = [
     "the getc callback returns 0..255 or the end marker (-2 end of input, -1 read error) and keeps returning it",
     "memory allocation never fails in the harness runs",
@@ -138,10 +141,12 @@ def group(inputs):
     """op lines for a list of inputs: events, then the tree built in an empty target"""
     lines = []
     for inp in inputs:
+        # the tree first: it is judged against the spec column (tree the elements describe), a difference in the event
+        # list afterwards would only be a difference to the model
         lines.append("p input " + hx(inp))
-        lines.append("p config")
         lines.append("p root .")
         lines.append("p node")
+        lines.append("p config")
     return lines
 
 
@@ -405,7 +410,7 @@ def formats(tier, seed, scale):
         lines = [fmt_line(desc, r.choice(FLAGSETS))]
         for _ in range(8):
             inp = "".join(r.choice(alpha) for _ in range(r.choice([1, 2, 3, 5, 8, 13])))
-            lines += ["p input " + hx(inp), "p config", "p root .", "p node"]
+            lines += ["p input " + hx(inp), "p root .", "p node", "p config"]
         lines.append("p end")
         out.append(("fmt:%d" % k, lines))
     return out
@@ -468,14 +473,17 @@ def deep(tier):
 
 
 def scripts(tier, seed, scale=1):
-    out = stat_all(keep_all(exhaustive(tier), 8), 4)
+    out = stat_all(keep_all(exhaustive(tier), 12), 6)
     rest = []
     rest += long_tokens(tier)
     rest += noassign(tier)
     rest += buffer_steps(tier)
     rest += grammar(tier, seed, scale)
     rest += formats(tier, seed, scale)
-    rest += nul_bytes(tier)
+    # (without `p stat`: a difference in the counters would hide a wrong tree later in the same script)
+    nul = nul_bytes(tier)
+    rest += [(n + ":stat", l) for n, l in nul[::4]]
+    out += nul
     return out + stat_all(keep_all(rest)) + oom(tier, seed) + deep(tier)
 
 
